@@ -146,8 +146,19 @@ class CoreSummaries:
             I.st = cur
 
     def core_summaries(self):
+        def n_down(I, recv, args, kwargs):
+            # trusted OrderedWeakrefSet contract: len() == number of live children (an arbitrary number >= 0)
+            n = z3.Int('n_downstreams')
+            I.st.assume(n >= 0)
+            return VInt(n)
+
+        def list_down(I, recv, args, kwargs):
+            D = z3.Const('D_downstreams', sym.SeqObjS)
+            I.st.assume(z3.Length(D) == z3.Int('n_downstreams'))
+            return I.st.new_list(D, K_OBJ)
         return {'Stream._emit': self.s_emit, 'Stream._retain_refs': self.s_retain,
-                'Stream._release_refs': self.s_release}
+                'Stream._release_refs': self.s_release, 'len:OrderedWeakrefSet': n_down,
+                'list:OrderedWeakrefSet': list_down}
 
     # ---- spec functions usable in clause texts
     def core_spec_funcs(self):
